@@ -652,6 +652,9 @@ def check_rho_alignment(ctx, rep):
 def run(ctx, rep):
     from sa import callbind
     callbind.run_for(ctx, rep, 'C09', 5)
+    from sa import dtypes
+    rep.rule('C09.T', "times / dates given as Python numbers enter the computation at the requested precision: a tensor built from them without a dtype (torch's default float32) is neither computed with nor converted afterwards")
+    dtypes.check_default_precision(ctx, rep, 'C09.T', ['torchtree.evolution.bdsk', 'torchtree.evolution.birth_death'], 1)
     rep.explanation = (
         "JSON option plumbing of every from_json (an option stored for the constructor is read from the key of the same name), "
         "keyword plumbing and the epidemiological re-parameterisation as polynomial identities, member resolution of the model "
